@@ -222,13 +222,71 @@ def build_units(tier: str) -> list[Unit]:
             units.append(Unit(f"store/reply/{cname}/{tag}",
                               c11.insert_harness("response", cname, cls, alts),
                               setup=_store_setup, allow_empty=True))
+    # L1 at the call site: every reply that is logged (the replaying server will serve it and
+    # update *its* state from it) also drives the client's state tracking - for returned
+    # replies, negative replies raised as exceptions and replies flagged as not matching
+    units.append(Unit("client-state/ECU._request", c11.ecu_harness(True, True, "noconfig"),
+                      setup=_state_setup))
     return units
+
+
+def _state_setup(ex: Explorer) -> None:
+    from . import c11
+    c11.install_db(ex)
+    ex.obligation_filter = lambda name: name.startswith(("E-state-updated", "E-row-response"))  # type: ignore[attr-defined]
 
 
 def _store_setup(ex: Explorer) -> None:
     from . import c11
     c11.install_db(ex)
     ex.obligation_filter = lambda name: name.startswith(("I-response-column", "I-row-has"))  # type: ignore[attr-defined]
+
+
+def native_client_state() -> tuple[bool, str]:
+    """a state-changing reply that arrives as the (mismatching) answer to another request: the
+    client must follow it, as the replaying server will"""
+    import asyncio
+    import logging
+    logging.disable(logging.CRITICAL)
+    import gallia.command  # noqa: F401
+    from gallia.services.uds.core.exception import UDSException
+    from gallia.services.uds.ecu import ECU
+    from gallia.transports.base import BaseTransport, TargetURI
+
+    class T(BaseTransport, scheme="c12state"):
+        def __init__(self) -> None:
+            self.mutex = asyncio.Lock()
+            self.is_closed = False
+            self.target = TargetURI("c12state://x")
+            self.replies = [bytes.fromhex("5003003201f4")]
+
+        async def connect(self, *a: object, **k: object) -> "T":  # type: ignore[override]
+            return self
+
+        async def close(self) -> None:
+            pass
+
+        async def write(self, data: bytes, timeout: float | None = None,
+                        tags: list[str] | None = None) -> int:
+            return len(data)
+
+        async def read(self, timeout: float | None = None,
+                       tags: list[str] | None = None) -> bytes:
+            if not self.replies:
+                raise asyncio.TimeoutError
+            return self.replies.pop(0)
+
+    async def go() -> tuple[bool, str]:
+        ecu = ECU(T(), timeout=0.1, max_retry=0)
+        try:
+            # the late positive answer to an earlier 10 03 is read as the reply to 22 f1 90
+            await ecu.read_data_by_identifier(0xF190)
+        except UDSException:
+            pass
+        return (ecu.state.session != 3,
+                f"reply 50 03 .. was read (and logged) as the answer to 22 f1 90; client state "
+                f"session={ecu.state.session}, the replaying server moves to session 3")
+    return asyncio.run(go())
 
 
 HISTORIES: dict[str, list[tuple[str, str | None]]] = {
@@ -339,6 +397,8 @@ def native_replay(unit: str, obligation: str, model: dict) -> tuple[bool, str]:
     if unit.startswith("store/"):
         from . import c11
         return c11.native_replay(unit, obligation, model)
+    if unit.startswith("client-state/"):
+        return native_client_state()
     if "ReadDataByIdentifierResponse" not in unit or "0xF186" not in obligation:
         return native_record_replay()
 
